@@ -50,6 +50,8 @@ def run_history(cfg, ops, env, res, term0=(30, 12)):
     subj = ih.make_subject(cfg)
     tell0 = subj.tell()
     it = ih.make_iterator(subj, cfg)
+    if cfg.get("reuse") is not None and cfg.get("n"):
+        res.count("histories on an iterator built over render data an earlier iterator had used")
     m = IterModel(cfg["n"], cfg["loops"], cfg.get("indef_len"))
     sh = ih.Shadow(cfg, term)
     states = res.extra.setdefault("_states", set()) if False else None
